@@ -26,7 +26,8 @@ SPEC = {
               "SmallRng": "Gen.Tape", "Bernoulli": "Nat", "Pathologies": "Gen.Pathology",
               "StatsQueue": "(List (List Gen.ClientStats))", "Instant": "Unit",
               "TcpListener": "Unit", "TcpStream": "Unit", "Poll": "Gen.Poll", "Events": "(List Nat)", "Token": "Nat", "Event": "Nat",
-              "Timer": "(List Rs.Time)", "Shutdown": "Unit"},
+              "Timer": "(List Rs.Time)", "Shutdown": "Unit", "PathBuf": "String", "NonZeroUsize": "Nat",
+              "YamlDoc": "Gen.YamlDoc", "Yaml": "Gen.Yaml", "YamlDocs": "(List Gen.YamlDoc)", "File": "Unit", "OptString": "(Option String)"},
     # translated structs (fields of other types must be listed under skip_fields)
     "structs": {
         "RtMessage": {},
@@ -40,6 +41,8 @@ SPEC = {
         "AggregatedStats": {"skip_fields": ["empty_map"]},
         "PerClientStats": {},
         "Reporter": {"skip_fields": ["next_update", "report_interval", "output_location"]},
+        "EnvironmentConfig": {},
+        "FileConfig": {},
         "MsgSigner": {},
         "MsgVerifier": {},
         "OnlineKey": {},
@@ -152,6 +155,34 @@ SPEC = {
         "Server::compute_delay": {"lean": "{0}"},
         "Instant::elapsed": {"lean": "()"},
         "Duration::from_millis": {"lean": "(⟨{0} / 1000, ({0} % 1000) * 1000000⟩ : Rs.Time)", "ret_rust": "Duration"},
+        # configuration loaders: the process environment is the module parameter ENV (name, value), the number of CPUs NCPU;
+        # `str::parse::<T>()` / `T::try_from(i64)` take T from the context (the place the value is assigned to)
+        "env::var": {"lean": "(Gen.envVar ENV {0})", "result": True, "ret_rust": "String"},
+        "str::parse": {"by_type": {"u16": "(Rs.ofOpt (Config.parseUnsigned 16 {self}))", "u8": "(Rs.ofOpt (Config.parseUnsigned 8 {self}))",
+                                   "usize": "(Rs.ofOpt (Config.parseUnsigned 64 {self}))", "u64": "(Rs.ofOpt (Config.parseUnsigned 64 {self}))",
+                                   "u32": "(Rs.ofOpt (Config.parseUnsigned 32 {self}))",
+                                   "KmsProtection": "(Rs.ofOpt ((Config.parseKms {self}).map (·.1)))", "String": "(Res.ok {self})"},
+                       "lean": "", "result": True},
+        "Encoding::decode": {"lean": "(Rs.ofOpt (Config.hexDecode {0}))", "result": True},
+        "thread::available_parallelism": {"lean": "(Res.ok NCPU)", "result": True, "ret_rust": "NonZeroUsize"},
+        "NonZeroUsize::get": {"lean": "{self}"},
+        "String::make_ascii_lowercase": {"lean": "(Config.lower {self})", "mutates": True},
+        "String::to_ascii_lowercase": {"lean": "(Config.lower {self})", "ret_rust": "String"},
+        "Duration::from_secs": {"lean": "(⟨{0}, 0⟩ : Rs.Time)", "ret_rust": "Duration", "arg_types": ["u64"]},
+        "PathBuf::from": {"lean": "{0}"},
+        # FileConfig::new: the parsed YAML documents are the module parameter YAML; a scalar is its source text and
+        # yaml-rust's resolution of it is the model's (Config.yamlInt / yamlStr / isFloat)
+        "File::open": {"lean": "(Res.ok ())", "result": True, "ret_rust": "File"},
+        "File::read_to_string": {"lean": "(Res.ok 0)", "result": True},
+        "YamlLoader::load_from_str": {"lean": "(Res.ok YAML)", "result": True, "ret_rust": "YamlDocs"},
+        "YamlDoc::as_hash": {"lean": "(some {self})"},
+        "Yaml::as_str": {"lean": "(Gen.Yaml.asStr {self})", "ret_rust": "OptString"},
+        "Yaml::as_i64": {"lean": "(Gen.Yaml.asI64 {self})"},
+        "Yaml::is_real": {"lean": "(Gen.Yaml.isReal {0})"},
+        "Yaml::real_text": {"lean": "{0}", "ret_rust": "String"},
+        "FileConfig::int_in_range": {"by_type": {"u16": "(Rs.ofOpt (Config.narrow 16 {1}))", "u8": "(Rs.ofOpt (Config.narrow 8 {1}))",
+                                                 "usize": "(Rs.ofOpt (Config.narrow 64 {1}))", "u64": "(Rs.ofOpt (Config.narrow 64 {1}))",
+                                                 "u32": "(Rs.ofOpt (Config.narrow 32 {1}))"}, "lean": "", "result": True},
         "StatsQueue::pop": {"lean": "({self}).tail", "res": "({self}).head?", "mutates": True},
         "Instant::now": {"lean": "()", "ret_rust": "Instant"},
         "Instant::duration_since": {"lean": "()"},
@@ -236,6 +267,19 @@ SPEC = {
             "types_override": {"Grease": "Gen.Grease"},
             "functions": {"Grease::new": {"extra_params": [("tape", "Gen.Tape")]}, "Grease::should_add_error": {}, "Grease::add_errors": {},
                           "Grease::randomly_order_tags": {}, "Grease::corrupt_response_signature": {}},
+        },
+        "EnvConfig": {
+            "file": "src/config/environment.rs",
+            "lean_imports": ["Rough.Gen.ConfigExt"],
+            "params": [("ENV", "List (String × String)"), ("NCPU", "Nat")],
+            "functions": {"EnvironmentConfig::new": {}},
+        },
+        "FileConfig": {
+            "file": "src/config/file.rs",
+            "imports": ["EnvConfig"],      # (shares the module-local constant DEFAULT_STATUS_INTERVAL)
+            "lean_imports": ["Rough.Gen.ConfigExt"],
+            "params": [("YAML", "List Gen.YamlDoc"), ("NCPU", "Nat")],
+            "functions": {"FileConfig::new": {"local_types": {"key": "Yaml", "value": "Yaml", "other": "Yaml", "infile": "File"}}},
         },
         "Config": {
             "file": "src/config/mod.rs",
@@ -370,9 +414,11 @@ SPEC = {
             },
         },
     },
+    # variants of enums known only through externs: "Enum::Variant" -> (test extern, payload extern)
+    "variant_tests": {"Yaml::Real": ("Yaml::is_real", "Yaml::real_text")},
     "consts_extern": {"UNIX_EPOCH": "()", "AES_256_GCM": "()"},
     # constants defined in other files that the modules refer to
-    "const_files": ["src/lib.rs", "src/request.rs", "src/message.rs", "src/merkle.rs", "src/tag.rs", "src/bin/roughenough-client.rs", "src/key/longterm.rs", "src/key/online.rs", "src/responder.rs", "src/version.rs", "src/sign.rs", "src/kms/envelope.rs", "src/kms/mod.rs", "src/config/mod.rs", "src/server.rs", "src/stats/mod.rs", "src/stats/aggregated.rs", "src/stats/per_client.rs", "src/grease.rs"],
+    "const_files": ["src/lib.rs", "src/request.rs", "src/message.rs", "src/merkle.rs", "src/tag.rs", "src/bin/roughenough-client.rs", "src/key/longterm.rs", "src/key/online.rs", "src/responder.rs", "src/version.rs", "src/sign.rs", "src/kms/envelope.rs", "src/kms/mod.rs", "src/config/mod.rs", "src/server.rs", "src/stats/mod.rs", "src/stats/aggregated.rs", "src/stats/per_client.rs", "src/grease.rs", "src/config/environment.rs", "src/config/file.rs"],
 }
 
 
